@@ -141,6 +141,7 @@ theorem uid_of_sublive {s t : State} (h : UID s) (rem : List Sub) (hp : (rem ++ 
 /-- the subscription a context commits for the given ending -/
 def finSub (hz : Nat) (c : Ctx) : Fin → Sub
   | .retry => (c.setKeepRetry hz).commit
+  | .unsent => c.setKeepUnsent.commit
   | .keep => c.commit
   | .drop => c.commit
 
@@ -149,7 +150,7 @@ def finKeep : Fin → Bool
   | _ => true
 
 theorem finSub_id (hz : Nat) (c : Ctx) (f : Fin) : (finSub hz c f).id = c.sub.id := by
-  cases f <;> simp [finSub, Ctx.commit, Ctx.setKeepRetry]
+  cases f <;> simp [finSub, Ctx.commit, Ctx.setKeepRetry, Ctx.setKeepUnsent]
 
 theorem fin_none {s : State} {id : Nat} {f : Fin}
     (h : s.ctxs.find? (fun c => c.sub.id == id) = none) : (s.fin id f).1 = s := by
@@ -449,6 +450,7 @@ theorem track_step {s : State} {ep id i R M Z : Nat} (op : Op) (hwf : WF s) (hu 
           · cases f with
             | keep => simp only [finSub, Ctx.commit] at hyseen; omega
             | drop => simp only [finSub, Ctx.commit] at hyseen; omega
+            | unsent => simp only [finSub, Ctx.commit, Ctx.setKeepUnsent] at hyseen; omega
             | retry =>
               refine ⟨by rw [f2]; exact hep, _, hyid, hyseen, ?_, ?_, ?_, Or.inl hys⟩
               · simp only [finSub, Ctx.commit, Ctx.setKeepRetry]; rw [hcx]; exact hR
